@@ -68,7 +68,7 @@ fn templates(log: &[verif::Event]) -> Vec<Value> {
         match e.what {
             "acq" => {
                 if !h.is_empty() {
-                    let hs: BTreeSet<String> = h
+                    let hs: Vec<String> = h
                         .iter()
                         .map(|(m, _, w)| format!("{}:{}", m, if *w { "W" } else { "R" }))
                         .collect();
